@@ -194,6 +194,18 @@ func init() {
 		{"maprow-list", "(car (mapcar #'list %[1]s %[1]s))", shareNone, 2, func(s []int64) []int64 { return []int64{s[0], s[0]} }, true, false},
 		{"maprow-cons", "(car (mapcar #'cons %[1]s (mapcar #'list %[1]s)))", shareNone, 2, func(s []int64) []int64 { return []int64{s[0], s[0]} }, false, false},
 		{"maprow-append", "(car (mapcar #'append (mapcar #'list %[1]s) (mapcar #'list %[1]s)))", shareNone, 2, func(s []int64) []int64 { return []int64{s[0], s[0]} }, false, false},
+		// producers that build their result by way of ANOTHER kind of object (a vector, a values object, a sequence
+		// function that copies): the list that comes back is independent of the argument, and the intermediate object
+		// is the producer's own (changing the intermediate vector must not change the list it was made from)
+		{"via-vector", "(coerce (coerce %s 'vector) 'list)", shareNone, 1, func(s []int64) []int64 { return s }, true, false},
+		{"via-vector-set", "(let ((v (coerce %s 'vector))) (setf (aref v 0) (- (aref v 0))) (coerce v 'list))", shareNone, 1, func(s []int64) []int64 { return cat([]int64{-s[0]}, s[1:]) }, true, false},
+		{"via-values", "(multiple-value-list (values-list %s))", shareNone, 1, func(s []int64) []int64 { return s }, true, false},
+		{"copy-seq", "(copy-seq %s)", shareNone, 1, func(s []int64) []int64 { return s }, true, false},
+		{"concatenate", "(concatenate 'list %s)", shareNone, 1, func(s []int64) []int64 { return s }, true, false},
+		{"map-list", "(map 'list #'identity %s)", shareNone, 1, func(s []int64) []int64 { return s }, false, false},
+		{"copy-tree", "(copy-tree %s)", shareNone, 1, func(s []int64) []int64 { return s }, false, false},
+		{"revappend", "(revappend %s nil)", shareNone, 1, rev, false, false},
+		{"ldiff", "(ldiff %s nil)", shareNone, 1, func(s []int64) []int64 { return s }, false, false},
 	}
 	for _, u := range unary {
 		u := u
